@@ -100,7 +100,17 @@ def cases(draw, tier):
     if draw(st.sampled_from([False] * 29 + [True])):
         # one axis past 256 entries ('large axis' paths of the reorderings)
         spec = draw(gen.big_specs(md="simple", values="dyadic"))
-    if op["kind"] == "sort" and op["f"] in ("default", "sorted") and \
+    if op["kind"] == "sort" and draw(st.integers(0, 3)) == 0:
+        # words: no digit anywhere on the sorted axis, not in order
+        key = "obs" if op["axis"] == "observation" else "samp"
+        pool = ["gut", "skin", "feces", "tongue", "soil", "water", "Air",
+                "palm", "nose", "ear", "Leaf", "root", "sea", "ice"]
+        n = len(spec[key])
+        pick = list(draw(st.permutations(pool)))[:n]
+        spec[key] = pick + ["w" + "x" * i for i in range(n - len(pick))]
+        spec["history"] = [o for o in spec["history"]
+                           if o["op"] not in ("rename", "transpose")]
+    elif op["kind"] == "sort" and op["f"] in ("default", "sorted") and \
             draw(st.booleans()):
         # IDs that already sit in plain text order (or its reverse), which
         # is not natural order: "already sorted" shortcuts
